@@ -1970,3 +1970,161 @@ func c03LinkOrder(rc *RuleCtx) {
 		rc.good(cons, f.Pos(), "EPERM for a directory source is returned only after the destination walk and the permission test passed")
 	}
 }
+
+func init() {
+	register(&Rule{ID: "C10.root", Floor: 3,
+		Text: "the root of a BasePathFS is the base directory itself, which belongs to the underlying file system: Remove, RemoveAll and Rename are forwarded only after the translated path was compared with the base path and found different - a chroot cannot remove or move its own root, and nothing outside the base directory (its entry in the parent directory) is changed",
+		Run:  c10Root})
+}
+
+func c10Root(rc *RuleCtx) {
+	for _, name := range []string{"Remove", "RemoveAll", "Rename"} {
+		f := bpMethod(rc, name)
+		cons := "basepathfs.(*BasePathFS)." + name + " root excluded"
+		if f == nil {
+			rc.anchor(cons)
+			continue
+		}
+		var fwd ssa.CallInstruction
+		eachCall(f, func(ci ssa.CallInstruction) {
+			if fn := calleeFunc(ci); fn != nil && fn.Name() == name && ci.Common().IsInvoke() {
+				fwd = ci
+			}
+		})
+		if fwd == nil {
+			rc.bad(cons, f.Pos(), "the call is not forwarded to the base file system")
+			continue
+		}
+		arg := callArgs(fwd)[0]
+		ok := false
+		for _, fa := range factsAt(fwd.Block()) {
+			c, truth := normCond(fa.Cond, fa.Truth)
+			bo, isB := c.(*ssa.BinOp)
+			if !isB || (bo.Op != token.EQL && bo.Op != token.NEQ) {
+				continue
+			}
+			differ := (bo.Op == token.NEQ) == truth
+			for _, pair := range [][2]ssa.Value{{bo.X, bo.Y}, {bo.Y, bo.X}} {
+				if sameValue(resolve1(pair[0]), resolve1(arg)) && isFieldLoad(resolve1(pair[1]), "basePath") && differ {
+					ok = true
+				}
+			}
+		}
+		if ok {
+			rc.good(cons, fwd.Pos(), "forwarded only when the translated path differs from the base path")
+		} else {
+			rc.bad(cons, fwd.Pos(), "the call is forwarded without excluding the base path itself: "+name+"(\"/\") through the wrapper removes (or moves) the base directory in the underlying file system, an entry of a directory outside the base")
+		}
+	}
+}
+
+func init() {
+	register(&Rule{ID: "C02.unlinked", Floor: 2,
+		Text: "a handle keeps working on its file after the last name is removed: the routines that release a node when an entry is removed (they decrement the link counter) do not touch its content - an unlinked file keeps its bytes for the handles that are still open, and the memory goes when the last of them is closed",
+		Run:  c02Unlinked})
+}
+
+func c02Unlinked(rc *RuleCtx) {
+	for _, pk := range []string{"memfs", "orefafs"} {
+		for _, f := range rc.C.srcFuncs(pk) {
+			if !isUnlinkRoutine(f) {
+				continue
+			}
+			cons := funcName(f) + " keeps the content"
+			bad := false
+			eachInstr(f, func(in ssa.Instruction) {
+				if st, ok := in.(*ssa.Store); ok {
+					if fa, ok := st.Addr.(*ssa.FieldAddr); ok && fieldName(fa.X.Type(), fa.Field) == "data" {
+						bad = true
+					}
+				}
+			})
+			if bad {
+				rc.bad(cons, f.Pos(), "the content is dropped when the link counter reaches zero: a handle opened before the last name was removed reads EOF and loses what it writes, where os.File keeps working on the unlinked file")
+			} else {
+				rc.good(cons, f.Pos(), "only the link counter (and the entries of a directory) change")
+			}
+		}
+	}
+}
+
+func init() {
+	register(&Rule{ID: "C02.openpos", Floor: 2,
+		Text: "a new handle starts at offset 0 whatever its flags: OpenFile stores nothing but the constant 0 into the offset of the handle it builds (O_APPEND positions each write at the end, in Write; it does not move the read position, so an O_RDWR|O_APPEND handle reads from the beginning as os.File does)",
+		Run:  c02OpenPos})
+}
+
+func c02OpenPos(rc *RuleCtx) {
+	for _, fp := range filePkgs {
+		var f *ssa.Function
+		switch fp.pkg {
+		case "memfs":
+			f = rc.C.method("memfs", "MemFS", "OpenFile")
+		case "orefafs":
+			f = rc.C.method("orefafs", "OrefaFS", "OpenFile")
+		}
+		cons := fmt.Sprintf("%s OpenFile initial offset", fp.pkg)
+		if f == nil {
+			rc.anchor(cons)
+			continue
+		}
+		bad := false
+		n := 0
+		for _, g := range append([]*ssa.Function{f}, calleesWithin(rc, f, fp.pkg)...) {
+			eachInstr(g, func(in ssa.Instruction) {
+				st, ok := in.(*ssa.Store)
+				if !ok {
+					return
+				}
+				fa, ok := st.Addr.(*ssa.FieldAddr)
+				if !ok || fieldName(fa.X.Type(), fa.Field) != "at" {
+					return
+				}
+				if nt := namedOf(fa.X.Type()); nt == nil || nt.Obj().Name() != fp.typ {
+					return
+				}
+				n++
+				if k, isC := constInt(st.Val); !isC || k != 0 {
+					// a parameter of an unexported constructor: every call site passes 0?
+					if nonNegCfg = rc.C; true {
+						if p, isP := strip(st.Val).(*ssa.Parameter); isP && !isEntryPoint(g) {
+							idx := paramIdxRaw(g, p)
+							all := true
+							for _, h := range rc.C.srcFuncs(fp.pkg) {
+								eachCall(h, func(ci ssa.CallInstruction) {
+									if ci.Common().StaticCallee() == g && idx < len(ci.Common().Args) {
+										if k2, c2 := constInt(ci.Common().Args[idx]); !c2 || k2 != 0 {
+											all = false
+										}
+									}
+								})
+							}
+							if all {
+								return
+							}
+						}
+					}
+					bad = true
+				}
+			})
+		}
+		if bad {
+			rc.bad(cons, f.Pos(), "OpenFile gives the new handle an offset other than 0 (the size of the file for O_APPEND): Read on an O_RDWR|O_APPEND handle starts at the end and returns EOF where os.File returns the content")
+		} else {
+			rc.good(cons, f.Pos(), fmt.Sprintf("the offset of the new handle is left at zero (%d explicit store(s))", n))
+		}
+	}
+}
+
+// calleesWithin: unexported functions of the package called (statically) from f, one level.
+func calleesWithin(rc *RuleCtx, f *ssa.Function, pkg string) []*ssa.Function {
+	var out []*ssa.Function
+	seen := map[*ssa.Function]bool{}
+	eachCall(f, func(ci ssa.CallInstruction) {
+		if sc := ci.Common().StaticCallee(); sc != nil && sc.Pkg == f.Pkg && !isEntryPoint(sc) && len(sc.Blocks) > 0 && !seen[sc] {
+			seen[sc] = true
+			out = append(out, sc)
+		}
+	})
+	return out
+}
